@@ -91,6 +91,32 @@ pub fn verify_original(original: Unimock, mode: VerifyMode) -> VerifyObs {
 }
 
 /// Execute the scenario on the real implementation.
+struct OnDrop<F: FnOnce()>(Option<F>);
+impl<F: FnOnce()> Drop for OnDrop<F> {
+    fn drop(&mut self) {
+        if let Some(f) = self.0.take() {
+            f()
+        }
+    }
+}
+
+/// The call is made by a destructor (RAII cleanup) that runs while this thread unwinds from a user panic, which is
+/// caught further out. A panic of the call itself is caught inside the destructor (it must not escape from it).
+pub fn call_while_unwinding(inst: &mut Unimock, method: u8, arg: u8) -> Result<u32, String> {
+    let mut slot = None;
+    let _ = std::panic::catch_unwind(std::panic::AssertUnwindSafe(|| {
+        let _guard = OnDrop(Some(|| {
+            slot = Some(if std::thread::panicking() {
+                catch(|| traits::call(inst, method, arg))
+            } else {
+                Err("HARNESS: the destructor did not run during an unwinding".to_string())
+            });
+        }));
+        std::panic::resume_unwind(Box::new("user panic (expected)"));
+    }));
+    slot.unwrap_or_else(|| Err("HARNESS: the destructor did not run".to_string()))
+}
+
 pub fn run_real(scn: &Scenario) -> RealRun {
     let _ = traits::take_log();
     let original = match new_mock(scn.partial, &scn.clauses) {
@@ -114,7 +140,11 @@ pub fn run_real(scn: &Scenario) -> RealRun {
     for call in &scn.history {
         let i = call.via as usize % insts.len();
         let inst = &mut insts[i];
-        let r = catch(|| traits::call(inst, call.method, call.arg));
+        let r = if call.unwinding {
+            call_while_unwinding(inst, call.method, call.arg)
+        } else {
+            catch(|| traits::call(inst, call.method, call.arg))
+        };
         calls.push((Obs::from_result(r), traits::take_log()));
     }
     let mut clone_drop_panics = vec![];
